@@ -147,3 +147,9 @@ Example ex_tree :
   static (Bin "LShift" (Bin "Div" (Var CInt) (Var CInt)) (Var CInt)) = None /\
   T "FloorDiv" CFloat CInt = PFloat /\ T "Add" CTuple CTuple = PTuple.
 Proof. vm_compute. repeat split; reflexivity. Qed.
+
+(* the excluded cell is a genuine counterexample of the full statement: int ** int is typed IntType, yet a float is among the
+   possible run-time results (2 ** -1) and does not conform to it - the recorded finding nonconforming:Pow:int:int *)
+Theorem pow_int_int_refuted :
+  T "Pow" CInt CInt <> PImpossible /\ exists r, In r (cpy_binop "Pow" CInt CInt) /\ conforms r (T "Pow" CInt CInt) = false.
+Proof. split; [vm_compute; discriminate|]. exists CFloat. vm_compute. auto. Qed.
